@@ -304,7 +304,7 @@ def check(ctx):
     if not ctx.build_go("supdrv"):
         return ctx.finish()
     ok, out = ctx.lean_obligations("C19")
-    if ok:
+    if ok or ctx.oracle_available():
         markers = os.path.join(ctx.work, "markers")
         os.makedirs(markers, exist_ok=True)
         # corpus (hand-written sequential histories) first
@@ -331,7 +331,7 @@ def check(ctx):
             cmds.append(cmd); outs.append((o, st))
         if orphans_enabled():
             o = os.path.join(ctx.work, "sup.orphan.trace"); st = os.path.join(ctx.work, "sup.orphan.stats.json")
-            cmds.append(drv("-seed", str(ctx.seed), "-cases", "3", "-mode", "orphan", "-out", o, "-stats", st, "-dir", markers))
+            cmds.append(drv("-seed", str(ctx.seed), "-cases", "4", "-mode", "orphan", "-out", o, "-stats", st, "-dir", markers))
             outs.append((o, st))
         # slow subscriber: 20-48 processes end before anybody reads the events channel
         o = os.path.join(ctx.work, "sup.burst.trace"); st = os.path.join(ctx.work, "sup.burst.stats.json")
@@ -351,7 +351,7 @@ def check(ctx):
              "TERM ignored, TERM ignored with child, forked background child), 1–64 processes per case; sequential cases (calls at determinate points incl. name reuse/overwrite, "
              "unknown names, far/near/past/zero deadlines, foreign kills, failed Execs) are compared step by step with the model; racing cases (each call in its own goroutine, "
              "children exiting on their own) and all sequential cases are judged model-free from /proc, marker files and group scans with one-sided timing only; "
-             "burst cases (20-48 processes all end while the subscriber does not read the events channel, then it drains) and the three orphan scenarios are judged the same way; "
+             "burst cases (20-48 processes all end while the subscriber does not read the events channel, then it drains) and the four orphan scenarios are judged the same way; "
              "a case is non-trivial if a Kill/Terminate hit a live process or calls raced; distinct by hash of the canonical trace",
         explanation="level 'proof' covers the supervisor's bookkeeping (Rie.Props.C19.*). OS semantics (signal delivery, reaping, process groups, wait status) are sampled "
                     "by the harness, not proved.")
